@@ -88,6 +88,10 @@ def work(run, part, parts):
             dflt = {k: v for k, v in (("digits", rng.choice([6, 8])), ("period", rng.choice([30, 45])), ("alg", rng.choice(["sha1", "sha256"])), ("issuer", rng.choice([None, "Factory Inc"])))
                     if rng.random() < 0.6 and v is not None}
         factory = TOTP.using(**dflt) if dflt else TOTP
+        # half of the objects of a customised class simply keep the class defaults (the ordinary use of such a class)
+        if dflt and rng.random() < 0.5:
+            alg, digits, period = dflt.get("alg", alg), dflt.get("digits", digits), dflt.get("period", period)
+            run.count("objects_keeping_factory_defaults")
         kw = dict(key=key, format="raw")
         # leave out values equal to the factory default half of the time, so the default really is in play
         for k, v in (("alg", alg), ("digits", digits), ("period", period)):
@@ -213,6 +217,22 @@ def work(run, part, parts):
                     run.count("uri_independent_reads")
                 except ValueError as e:
                     run.violation("C15|uri|independent-reader|unparsable", f"the provisioning URI cannot be parsed by urllib: {e}", dict(w, uri=src))
+        # re-keyed object: every serialisation follows the new key
+        if i % 5 == 0:
+            try:
+                obj2 = factory(**kw)
+                first = (obj2.to_uri(label="x"), obj2.to_json(), obj2.to_dict(), obj2.base32_key, obj2.hex_key, obj2.pretty_key())
+                key2 = H.pw_bytes(rng, rng.choice([10, 20, 33]), "binary")
+                obj2.key = key2
+                loaded = [factory.from_source(obj2.to_uri(label="x")), factory.from_source(obj2.to_json()), factory.from_source(obj2.to_dict()),
+                          TOTP(key=obj2.base32_key, format="base32"), TOTP(key=obj2.hex_key, format="hex"), TOTP(key=obj2.pretty_key(), format="base32")]
+                run.count("rekeyed_objects")
+                run.case(("rekeyed-object",), None)
+                stale = [n for n, o in zip(("uri", "json", "dict", "base32_key", "hex_key", "pretty_key"), loaded) if o.key != key2]
+                if stale:
+                    run.violation(f"C15|rekeyed-object|stale-key|{'+'.join(stale)}", f"after otp.key = <new key> these serialisations still carry the old key: {stale}", dict(w, new_key=key2))
+            except Exception as e:
+                run.violation(f"C15|rekeyed-object|raises|{type(e).__name__}", f"re-keying and serialising raised {type(e).__name__}: {str(e)[:100]}", w)
         # a live object handed to factories holding (different) application secrets: same key and fields afterwards
         if i % 7 == 0:
             wa = TOTP.using(secrets={"1": "first application secret"})
@@ -330,6 +350,8 @@ def body(run):
     run.require("corrupted_refused", 40)
     run.require("uri_independent_reads", 500)
     run.require("objects_between_wallet_factories", 100)
+    run.require("rekeyed_objects", 500)
+    run.require("objects_keeping_factory_defaults", 500)
     run.assumptions += ["leading/trailing blanks of a label or issuer are compared modulo the strip() the Key-URI format documents (URI format only)",
                         "':' is not admissible in labels and issuers (refused by the constructor) and is not generated"]
 
